@@ -272,6 +272,12 @@ func (i *interpreter) parseSubinclude(path string) ([]*Statement, error) {
 func (i *interpreter) optimiseExpressions(stmts []*Statement) {
 	WalkAST(stmts, func(expr *Expression) bool {
 		if constant := i.scope.Constant(expr); constant != nil {
+			if l, ok := constant.(pyList); ok && len(l) > 0 {
+				// Lists are mutable (by index assignment) so a list literal must produce a new list
+				// every time it's evaluated, not one object shared by every call & every package.
+				// Its elements can still be optimised individually.
+				return true
+			}
 			expr.optimised = &optimisedExpression{Constant: constant} // Extract constant expression
 			expr.Val = nil
 			return false
